@@ -22,3 +22,22 @@ check("C09",
       "run against interpolate_str in-process (ASan/UBSan) and robsd-config -v ... - on generated templates and environments with chains and cycles.",
       "Trusted: Lean kernel; translator (depth limit); harness; C-string domain (no NUL inside one template).",
       "DESIGN.md#c09")
+
+check("C13",
+      "Lean 4 proof by induction over the log's lines (generic in marker/match predicates, hence all 15 selections); differential run in-process and via the CLI",
+      "Proof: RegressLog.blocksFrom transcribes the parse loop; theorems for every list of lines and every selection: exit iff a selected line "
+      "exists after the leading trace, output is a subsequence of the log, an exact declarative description of the blocks (Extracts) with "
+      "completeness as corollary, peek agrees with parse, the command's exit status incl. -n and several/unreadable files, FAILED/UNEXPECTED_PASS "
+      "classified as failed. Model compared with regress_log_parse/peek/trim in-process (ASan) and robsd-regress-log on generated logs.",
+      "Trusted: Lean kernel; line splitting as buffer_getline does it (tied by correspondence); harness and oracle.",
+      "DESIGN.md#c13")
+
+check("C01",
+      "Lean 4 proof: parse/serialise round trip, exit-status contract, invariant by induction over write histories; byte-exact differential run of robsd-step incl. fault injection",
+      "Proof: StepFile models step.c/robsd-step.c (-W/-R) with serialisation through the proved interpolation model. Theorems: parse(serialise rows) = "
+      "sort rows for well-formed rows (decimal %d/strtonum round trip proved), a rejected write leaves the file unchanged, exit 0 implies the file holds the "
+      "serialised new state and never follows a failed flush, and for EVERY sequence of write commands with NUL-free arguments from the empty file the file "
+      "parses and every row is well formed (history_readable); rows sorted; a write touches one row. The model is compared byte-for-byte (file content, exit "
+      "status, read-back) with the real robsd-step on generated histories with hostile values, and under strace ENOSPC injection at the flush.",
+      "Trusted: Lean kernel; translator (field table); char-level lexer tied to the line/field model by correspondence only; qsort stability for equal ids; strace fault model.",
+      "DESIGN.md#c01")
